@@ -22,13 +22,14 @@ import (
 // the first call of a fresh process.
 
 type c16Call struct {
-	Name    string
-	Variant int    // which universe the loader serves (same URLs, different content)
-	Fn      string // entry point
-	Elem    string
-	Root    string
-	NoBase  bool   // nil options / no base path
-	Raw     string // schema literal to expand (meta-schema calls)
+	Name      string
+	Variant   int    // which universe the loader serves (same URLs, different content)
+	Fn        string // entry point
+	Elem      string
+	Root      string
+	NoBase    bool   // nil options / no base path
+	EmptyBase bool   // non-nil options with an empty RelativeBase
+	Raw       string // schema literal to expand (meta-schema calls)
 }
 
 func c16Universe(variant int) *built {
@@ -65,6 +66,10 @@ func c16Alphabet() []c16Call {
 		{Name: "ResolveRefWithBase(v2,by location)", Variant: 2, Fn: "ResolveRefWithBase", Elem: "sib.json#/definitions/N1", Root: "nil"},
 		{Name: "ResolveParameter(v3,typed root,no base)", Variant: 3, Fn: "ResolveParameter", Elem: "#/parameters/P", Root: "typed"},
 		{Name: "ResolveRefWithBase(no root,no base)", Variant: 1, Fn: "ResolveRefWithBase", Elem: "#/definitions/N0", Root: "nil", NoBase: true},
+		{Name: "ExpandSpec(v2, options with empty base)", Variant: 2, Fn: "ExpandSpec", EmptyBase: true},
+		{Name: "ExpandSchemaWithBasePath(v1,N0, options with empty base)", Variant: 1, Fn: "ExpandSchemaWithBasePath", Elem: "/definitions/N0", EmptyBase: true},
+		{Name: "MustLoadJSONSchemaDraft04 expanded in place", Variant: 1, Fn: "meta-load-expand", Raw: "draft04"},
+		{Name: "MustLoadSwagger20Schema expanded in place", Variant: 1, Fn: "meta-load-expand", Raw: "swagger"},
 		{Name: "ExpandSchema(ref to draft-04 meta-schema)", Variant: 1, Fn: "meta-expand", Raw: `{"$ref":"http://json-schema.org/draft-04/schema#"}`},
 		{Name: "ExpandSchema(ref into swagger meta-schema)", Variant: 2, Fn: "meta-expand", Raw: `{"properties":{"i":{"$ref":"http://swagger.io/v2/schema.json#/definitions/info"},"m":{"$ref":"http://json-schema.org/draft-04/schema#/properties/maxLength"}}}`},
 		{Name: "ResolveRef(into draft-04 meta-schema)", Variant: 1, Fn: "meta-resolve", Raw: "http://json-schema.org/draft-04/schema#/properties/maxLength"},
@@ -207,6 +212,20 @@ func c16Do(cl c16Call) (o c16Obs) {
 		o.Out = fmt.Sprintf("%x", sha256.Sum256(bb))[:16] + fmt.Sprintf(" len=%d", len(bb))
 		o.Loads = loads
 		return
+	case "meta-load-expand":
+		var s *spec.Schema
+		if cl.Raw == "draft04" {
+			s = spec.MustLoadJSONSchemaDraft04()
+		} else {
+			s = spec.MustLoadSwagger20Schema()
+		}
+		err := spec.ExpandSchema(s, s, nil)
+		if err != nil {
+			o.Err = err.Error()
+		}
+		bb, _ := json.Marshal(s)
+		o.Out = fmt.Sprintf("%x", sha256.Sum256(bb))[:16] + fmt.Sprintf(" len=%d", len(bb))
+		return
 	case "meta-resolve":
 		ref := spec.MustCreateRef(cl.Raw)
 		var loads []string
@@ -219,7 +238,7 @@ func c16Do(cl c16Call) (o c16Obs) {
 		o.Loads = loads
 		return
 	}
-	call := call{Fn: cl.Fn, Elem: cl.Elem, Root: cl.Root}
+	call := call{Fn: cl.Fn, Elem: cl.Elem, Root: cl.Root, EmptyBase: cl.EmptyBase}
 	if cl.NoBase {
 		// no root, no base path: nothing designates anything
 		ref := spec.MustCreateRef(cl.Elem)
@@ -341,15 +360,31 @@ func c16Exec(c *Ctx, cs c16Case, _ interface{}) string {
 
 func c16Run(c *Ctx) {
 	alpha := c16Alphabet()
-	depth := 3
+	// quick: every history of 2 calls over the whole alphabet + every history of 3 calls over the
+	// core calls; thorough: 3 calls over the whole alphabet + 4 calls over the core calls.
+	full, core := 2, 3
 	if !c.Quick() {
-		depth = 4
+		full, core = 3, 4
 	}
-	c.Bound("history_length", fmt.Sprint(depth))
+	c.Bound("history_length_whole_alphabet", fmt.Sprint(full))
+	c.Bound("history_length_core_calls", fmt.Sprint(core))
 	c.Bound("alphabet", fmt.Sprint(len(alpha))+" calls")
+	coreSet := []int{}
+	for i, a := range alpha {
+		switch a.Fn {
+		case "meta-load-expand", "meta-expand":
+			if a.Raw != "" && strings.Contains(a.Name, "ref to draft-04") {
+				coreSet = append(coreSet, i)
+			}
+		default:
+			if !strings.Contains(a.Name, "generic root") && !strings.Contains(a.Name, "ExpandResponseWithRoot") && !strings.Contains(a.Name, "ResolveParameter") {
+				coreSet = append(coreSet, i)
+			}
+		}
+	}
 	n := 0
-	var rec func(h []int)
-	rec = func(h []int) {
+	var rec func(h []int, depth int, set []int)
+	rec = func(h []int, depth int, set []int) {
 		if len(h) == depth {
 			if !c.Mine() || c.Expired() {
 				return
@@ -371,18 +406,23 @@ func c16Run(c *Ctx) {
 			}
 			return
 		}
-		for i := range alpha {
-			rec(append(h, i))
+		for _, i := range set {
+			rec(append(h, i), depth, set)
 		}
 	}
-	rec(nil)
+	all := make([]int, len(alpha))
+	for i := range all {
+		all[i] = i
+	}
+	rec(nil, full, all)
+	rec(nil, core, coreSet)
 }
 
 func init() {
 	extraCommands["hist"] = histMain
 	register(&CheckDef{
 		ID: "C16", Build: "instr", Run: c16Run, RunCase: c16RunCase,
-		Rule:        "states = every history of exactly k calls (all shorter ones are its prefixes) over an alphabet of 14 calls that collide on purpose: three universes with the same pseudo root and the same document URLs but different content, every family of entry point with and without root / base, and expansions / resolutions of both built-in meta-schemas; each history runs in a FRESH process; oracle (differential): every call's result, error, loader requests equal those of the same call made first in a fresh process, options and root unchanged, and the address-free deep fingerprint of every package-level variable (the default cache with both meta-schemas included) after every call equals the one after a single call; non-trivial = every history",
+		Rule:        "states = every history of exactly k calls (all shorter ones are its prefixes) over an alphabet of 18 calls (k = 2 quick / 3 thorough; one longer over the 10 core calls) that collide on purpose: three universes with the same pseudo root and the same document URLs but different content, every family of entry point with and without root / base, and expansions / resolutions of both built-in meta-schemas; each history runs in a FRESH process; oracle (differential): every call's result, error, loader requests equal those of the same call made first in a fresh process, options and root unchanged, and the address-free deep fingerprint of every package-level variable (the default cache with both meta-schemas included) after every call equals the one after a single call; non-trivial = every history",
 		Assumptions: []string{"runs on the instrumented build with the default (sorted) map order so that outputs of cyclic inputs are comparable between processes", "hidden state = package-level variables of package spec (enumerated from the type-checked tree by the generated export file) plus whatever makes a later call observe something else; state inside dependencies is only seen through the observations"},
 		MinOutcomes: 1,
 	})
